@@ -1,5 +1,5 @@
 (** CalMatch.v — model of caldav/match.go (Filter, Match, match, matchCompFilter,
-    matchPropFilter, matchProp, matchCompTimeRange, matchPropTimeRange,
+    matchPropFilter, matchProp, matchCompTimeRange, matchEventTimeRange, matchPropTimeRange,
     matchParamFilter, matchTextMatch) and the RFC 4791 section 9.7-9.9
     specification it is proved against.
     No proofs here: this file is extracted and must build even when a proof breaks. *)
